@@ -1860,6 +1860,114 @@ def pickle_roundtrip_model(P, R):
     return n
 
 
+def pickle_corrupt_model(P, R):
+    """`BDD.load` interpreted on files whose contents are not what the
+    writer produces (a variable at a level outside 0..n-1 of the file, at
+    the first and at the last position of the table; a negative level; an
+    edge to a node the file does not hold; no node table), into a fresh
+    manager and into one that holds nodes.  C17: when the call fails, the
+    manager is still reduced and consistent, its levels are still a
+    bijection onto 0..n-1 and every live reference denotes what it did."""
+    import itertools
+    load = P.func('dd.bdd.BDD.load')
+    resolver = interp.ModuleEnv(P, 'dd.bdd')
+    names = ['a', 'b', 'c']
+    rows = list(itertools.product((False, True), repeat=3))
+    funcs = [tuple(bool(a and not b) for a, b, c in rows),
+             tuple(bool(b if a else c) for a, b, c in rows)]
+    src, ext = _build_manager(['a', 'b', 'c'], funcs, [0, 1])
+    good = {'vars': {'a': 0, 'b': 1, 'c': 2},
+            'succ': copy.deepcopy(src['self._succ']),
+            'roots': sorted(ext)}
+
+    def edit(**kw):
+        d = copy.deepcopy(good)
+        d.update(kw)
+        return d
+    some = max(good['succ'])
+    i, v, w = good['succ'][some]
+    files = [
+        ('the variable c at level 5',
+         edit(vars={'a': 0, 'b': 1, 'c': 5})),
+        ('the variable a at level 7 (first in the table)',
+         edit(vars={'a': 7, 'b': 1, 'c': 2})),
+        ('a new variable w at level 5',
+         edit(vars={'a': 0, 'b': 1, 'c': 2, 'w': 5})),
+        ('the variable c at level -1',
+         edit(vars={'a': 0, 'b': 1, 'c': -1})),
+        (f'node {some} with an edge to the absent node 99',
+         edit(succ={**good['succ'], some: (i, v, 99)})),
+        ('no node table', {'vars': dict(good['vars']),
+                           'roots': list(good['roots'])}),
+    ]
+    lparams = [p for p in load.params if p != 'self']
+    problems = dict()
+    n = 0
+    try:
+        for fname, d in files:
+            for tname, tenv, text in (
+                    ('a fresh manager', _fresh_manager(), {}),
+                    ('a manager that holds nodes', copy.deepcopy(
+                        {k: v for k, v in src.items() if k != 'self'}),
+                     dict(ext))):
+                for levels in (True, False):
+                    n += 1
+                    tenv = copy.deepcopy(tenv)
+                    tenv['self'] = interp.Sym('self')
+                    tenv.setdefault('self.roots', set())
+                    live = {r: _tt_of(tenv, r, names) for r in text}
+
+                    def r_load(m, call, args, kw, d=d):
+                        return copy.deepcopy(d)
+                    stubs = ClassStubs(P, 'dd.bdd.BDD', extra={
+                        'open': lambda m, c, a, k: interp.Sym('file'),
+                        'load': r_load,
+                        '_request_reordering': lambda m, c, a, k: None},
+                        skip={'dump', 'load'})
+                    tenv[lparams[0]] = 'file.p'
+                    if len(lparams) > 1:
+                        tenv[lparams[1]] = levels
+                    out, m = interp.run_function(
+                        load.node, tenv, stubs, resolver)
+                    if out[0] != 'raise':
+                        continue
+                    what = (f'a file with {fname}, loaded into {tname} '
+                            f'with levels={levels}, is refused '
+                            f'({out[1]})')
+                    env = {k: v for k, v in m.env.items()
+                           if k.startswith('self.')}
+                    bad = _manager_complaints(env, dict(text))
+                    if bad is None:
+                        for r, t in live.items():
+                            if abs(r) not in env['self._succ'] or \
+                                    _tt_of(env, r, names) != t:
+                                bad = (f'the live reference {r} does '
+                                       'not denote what it did')
+                    if bad:
+                        problems.setdefault('corrupt-file', (
+                            f'{what} and leaves the manager changed: '
+                            f'{bad}'))
+    except (interp.Unknown, KeyError) as e:
+        R.undecided('R-RAW', load.qualname, 'corrupt-file model', str(e))
+        return None
+    for sub, msg in sorted(problems.items()):
+        R.violation('R-RAW', sub, load.qualname, 'load', msg,
+                    unit=load.unit.rel, line=load.lineno)
+    if not problems:
+        R.holds('R-RAW', load.qualname,
+                f'corrupt-file model ({n} loads of {len(files)} files): a '
+                'refused file leaves the manager reduced, consistent, with '
+                'levels 0..n-1 and every live reference unchanged')
+    return n
+
+
+def r_pickle_corrupt(P, R):
+    n = pickle_corrupt_model(P, R)
+    if n is not None:
+        R.floor('R-RAW loads of the corrupt-file model', n, 20)
+r_pickle_corrupt.NAME = 'R-RAW(corrupt-file model)'
+
+
 class _OrderModel:
     """A manager reduced to its variable order, for the functions that
     only drive `swap`: the size of the diagram is a fixed function of the
@@ -2602,22 +2710,22 @@ def operations_model(P, R, which=None):
                     (T[2], T[7], {'xp': 'x', 'yp': 'y'}, ['x', 'y']),
                     (T[0], 1, {'xp': 'x'}, ['x']),
                 ]
+                lv = {v: k for k, v in enumerate(order)}
                 for trans, source, mp, qv in cases:
-                    for forall in (False, True):
+                    # (the variables to quantify by name, and by level
+                    # with the renaming still by name: both are accepted)
+                    for qarg in (list(qv), [lv[q] for q in qv]):
                         obj = fresh(base)
                         out, _ = call(img, obj, [
-                            trans, source, dict(mp), list(qv), obj,
-                            forall], method=False)
+                            trans, source, dict(mp), qarg, obj,
+                            False], method=False)
                         conj = tuple(p and q for p, q in
                                      zip(tt[trans], tt[source]))
-                        if forall:
-                            conj = tuple((not q) or p for p, q in
-                                         zip(tt[trans], tt[source]))
-                            continue
                         want = ren(quant(conj, qv, False), mp)
                         check((img, 'image'),
                               f'order {order}: image(trans={trans}, '
-                              f'source={source}, rename={mp}, qvars={qv})',
+                              f'source={source}, rename={mp}, '
+                              f'qvars={qarg})',
                               obj, ext, names, out, want)
                 pcases = [
                     (T[0], T[4], {'x': 'xp'}, ['xp']),
@@ -2629,7 +2737,6 @@ def operations_model(P, R, which=None):
                 ]
                 # (preimage: adjacency of each pair is a documented
                 # precondition; image accepts any order)
-                lv = {v: k for k, v in enumerate(order)}
                 for trans, target, mp, qv in pcases:
                     if any(abs(lv[a] - lv[b]) != 1 for a, b in mp.items()):
                         continue
@@ -3319,6 +3426,98 @@ def r_bdd_to_mdd(P, R):
     if n is not None:
         R.floor('R-DOMAIN calls of the conversion model', n, 30)
 r_bdd_to_mdd.NAME = 'R-DOMAIN(bdd_to_mdd model)'
+
+
+def declare_model(P, R):
+    """`declare(*names)` of `dd.bdd.BDD` and of `dd.autoref.BDD`
+    interpreted (with `add_var` and what it calls) on managers with zero
+    to two variables for argument lists with new names, declared names
+    and a name given twice.  C14: no valid list is refused; declared
+    names keep their levels; each new name gets the next bottom level in
+    the order of the call; the tables stay a bijection with the terminal
+    below all variables; the function of an existing reference does not
+    change."""
+    stubs = ClassStubs(P, 'dd.bdd.BDD', extra={
+        '_request_reordering': lambda m, c, a, k: None})
+    arglists = [(), ('a',), ('c',), ('c', 'd'), ('c', 'c'),
+                ('a', 'c', 'a'), ('c', 'a', 'd', 'c'), ('b', 'a')]
+    problems = dict()
+    n = 0
+    try:
+        for qual, modname in (('dd.bdd.BDD.declare', 'dd.bdd'),
+                              ('dd.autoref.BDD.declare', 'dd.autoref')):
+            f = P.func(qual)
+            resolver = interp.ModuleEnv(P, modname, stubs)
+            va = f.node.args.vararg
+            if va is None:
+                raise interp.Unknown(f'{qual} without *names')
+            for order, tables in (([], []), (['a'], []),
+                                  (['a', 'b'], []),
+                                  (['b', 'a'],
+                                   [(False, False, False, True)])):
+                for names in arglists:
+                    n += 1
+                    base, ext = _build_manager(
+                        order, tables, range(len(tables)))
+                    obj = _object_manager(copy.deepcopy(
+                        {k: v for k, v in base.items() if k != 'self'}))
+                    before = {r: _tt_obj(obj, r, sorted(order))
+                              for r in ext}
+                    if modname == 'dd.autoref':
+                        me = interp.Sym('autoref manager', {
+                            '_bdd': obj, 'vars': obj.attrs['vars']})
+                        me.cls = resolver('BDD')
+                    else:
+                        me = obj
+                    out, _ = interp.run_function(
+                        f.node, {'self': me, va.arg: tuple(names)},
+                        stubs, resolver)
+                    want = {v: k for k, v in enumerate(order)}
+                    for x in names:
+                        want.setdefault(x, len(want))
+                    what = (f'variables {dict((v, k) for k, v in enumerate(order))}: '
+                            f'declare{names}')
+                    if out[0] == 'raise':
+                        problems.setdefault((f, 'refuses-valid'), (
+                            f'{what}: raises {out[1]}'))
+                        continue
+                    got = obj.attrs['vars']
+                    if got != want:
+                        problems.setdefault((f, 'levels'), (
+                            f'{what}: the manager has {got}, expected '
+                            f'{want} (declared names keep their level, '
+                            'each new name takes the next bottom level)'))
+                        continue
+                    env = {f'self.{k}': v for k, v in obj.attrs.items()}
+                    bad = _manager_complaints(env, dict(ext))
+                    if bad:
+                        problems.setdefault((f, 'tables'), f'{what}: {bad}')
+                        continue
+                    for r in ext:
+                        if _tt_obj(obj, r, sorted(order)) != before[r]:
+                            problems.setdefault((f, 'function'), (
+                                f'{what}: the function of the reference '
+                                f'{r} changed'))
+    except (interp.Unknown, KeyError) as e:
+        R.undecided('R-RAW', 'declare', 'declaration model', str(e))
+        return None
+    for (f, sub), msg in sorted(problems.items(),
+                                key=lambda kv: (kv[0][0].qualname, kv[0][1])):
+        R.violation('R-RAW', f'declare-{sub}', f.qualname, 'declare', msg,
+                    unit=f.unit.rel, line=f.lineno)
+    if not problems:
+        R.holds('R-RAW', 'declare (dd.bdd, dd.autoref)',
+                f'declaration model ({n} calls): every list of names is '
+                'accepted, also with a name twice or declared before; '
+                'levels, tables and existing functions as C14 gives them')
+    return n
+
+
+def r_declare(P, R):
+    n = declare_model(P, R)
+    if n is not None:
+        R.floor('R-RAW calls of the declaration model', n, 40)
+r_declare.NAME = 'R-RAW(declare model)'
 
 
 def dot_model(P, R):
